@@ -79,6 +79,7 @@ def instances(  # pylint: disable=too-many-arguments,too-many-locals
     benchmarks=(),
     min_jobs=1,
     with_text=False,
+    big_ok=False,
 ):
     """General instance generator (see DESIGN.md 2.3).
 
@@ -130,6 +131,11 @@ def instances(  # pylint: disable=too-many-arguments,too-many-locals
             mach = one
         machines = [[draw(mach) for _ in range(ln)] for ln in lengths]
         durations = [[draw(durs) for _ in range(ln)] for ln in lengths]
+    if big_ok and draw(st.integers(0, 7)) == 0:
+        # durations are arbitrary integers (e.g. microseconds): scale them so
+        # that times exceed 2**24 and are not representable in float32
+        factor = draw(st.sampled_from([2**24 + 1, 10**9 + 7]))
+        durations = [[x * factor for x in row] for row in durations]
     case = {
         "durations": durations,
         "machines": machines,
@@ -203,6 +209,8 @@ def inst_labels(inst):
         labels.append("irregular")
     if any(x == 0 for r in d for x in r):
         labels.append("zero_duration")
+    if any(x > 2**24 for r in d for x in r):
+        labels.append("huge_durations")
     if len(used) < n_m:
         labels.append("unused_machine_id")
     loads = [0] * n_m
